@@ -33,6 +33,7 @@ type config struct {
 	CapMove      bool
 	CapNamespace bool
 	CapUnauth    bool
+	Sasl         bool // the session implements SessionSASL (PLAIN, XTEST)
 }
 
 type capsObs struct {
@@ -109,6 +110,9 @@ func getServer(cfg config) *srvT {
 		Logger:       s.log,
 		NewSession: func(c *imapserver.Conn) (imapserver.Session, *imapserver.GreetingData, error) {
 			st := s.reg.Get(c).(*vh.ScriptSession)
+			if cfg.Sasl {
+				return st.WrapSASL(cfg.CapMove), &imapserver.GreetingData{PreAuth: cfg.PreAuth}, nil
+			}
 			return st.Wrap(cfg.CapMove, cfg.CapNamespace, cfg.CapUnauth), &imapserver.GreetingData{PreAuth: cfg.PreAuth}, nil
 		},
 	}
@@ -203,7 +207,7 @@ func cmdText(c, v string) string {
 			return c + " garbage"
 		case "ENABLE":
 			return "ENABLE ("
-		case "AUTHENTICATE-CANCEL":
+		case "AUTHENTICATE-CANCEL", "AUTHENTICATE-X":
 			return "AUTHENTICATE"
 		case "STATUS":
 			return "STATUS m"
@@ -225,6 +229,8 @@ func cmdText(c, v string) string {
 		return "AUTHENTICATE PLAIN AHUAcA=="
 	case "AUTHENTICATE-CANCEL":
 		return "AUTHENTICATE PLAIN"
+	case "AUTHENTICATE-X":
+		return "AUTHENTICATE XTEST eHRlc3Q="
 	case "ENABLE":
 		return "ENABLE IMAP4rev2"
 	case "CREATE", "DELETE", "SUBSCRIBE", "UNSUBSCRIBE", "SELECT", "EXAMINE":
@@ -391,7 +397,7 @@ func (p *peer) run1(ev *event) (*obs, error) {
 		}
 		for _, t := range r.Toks {
 			switch strings.ToUpper(t.S) {
-			case "AUTH=PLAIN":
+			case "AUTH=PLAIN", "AUTH=XTEST":
 				o.Caps.Auth = true
 			case "LOGINDISABLED":
 				o.Caps.LoginDis = true
@@ -587,7 +593,7 @@ func cmdOne(path string) {
 	out.Summary(map[string]interface{}{"behaviours": 1, "steps": steps})
 }
 
-var allCmds = []string{"NOOP", "CHECK", "LOGOUT", "CAPABILITY", "STARTTLS", "LOGIN", "AUTHENTICATE", "AUTHENTICATE-CANCEL",
+var allCmds = []string{"NOOP", "CHECK", "LOGOUT", "CAPABILITY", "STARTTLS", "LOGIN", "AUTHENTICATE", "AUTHENTICATE-CANCEL", "AUTHENTICATE-X",
 	"ENABLE", "CREATE", "DELETE", "RENAME", "SUBSCRIBE", "UNSUBSCRIBE", "STATUS", "LIST", "LSUB", "NAMESPACE", "IDLE",
 	"SELECT", "EXAMINE", "APPEND", "UNAUTHENTICATE", "CLOSE", "UNSELECT", "EXPUNGE", "UID EXPUNGE", "FETCH", "UID FETCH",
 	"STORE", "UID STORE", "COPY", "UID COPY", "MOVE", "UID MOVE", "SEARCH", "UID SEARCH", "XUNKNOWN"}
@@ -605,7 +611,10 @@ func cmdRandom(path string, seed int64, traces, steps int) {
 	rng := rand.New(rand.NewSource(seed))
 	total := 0
 	for t := 0; t < traces; t++ {
-		cfg := config{rng.Intn(2) == 0, rng.Intn(2) == 0, rng.Intn(3) == 0, rng.Intn(2) == 0, rng.Intn(2) == 0, rng.Intn(2) == 0, rng.Intn(2) == 0}
+		cfg := config{rng.Intn(2) == 0, rng.Intn(2) == 0, rng.Intn(3) == 0, rng.Intn(2) == 0, rng.Intn(2) == 0, rng.Intn(2) == 0, rng.Intn(2) == 0, rng.Intn(2) == 0}
+		if cfg.Sasl {
+			cfg.CapNamespace, cfg.CapUnauth = cfg.CapMove, cfg.CapMove
+		}
 		p, err := dial(cfg)
 		if err != nil {
 			out.Summary(map[string]interface{}{"infra_error": err.Error()})
